@@ -1,25 +1,76 @@
 //go:build verif
 
 // Contracts of the IndexMapping interface, checked by /verif (govc). Comment-only: this file adds no code.
-// Mapping objects are immutable after construction: their behaviour is described by pure functions of the object.
+// Mapping objects are immutable after construction (no function of the repository has a mapping field in its
+// modifies clause, which the verifier checks), so their behaviour is a function of the object's fields.
 
 package mapping
 
 //@ mode ints=wrap floats=real
 
-// abstract behaviour of a mapping object m
-//@ fun MIdx(m IndexMapping, v real) int
-//@ fun MLB(m IndexMapping, i int) real
-//@ fun MVal(m IndexMapping, i int) real
-//@ fun MAlpha(m IndexMapping) real
-//@ fun MMin(m IndexMapping) real
-//@ fun MMax(m IndexMapping) real
-//@ fun MEq(a IndexMapping, b IndexMapping) bool
+// the verifier treats the fields of these types as write-once (obligation immutable-write on every store)
+//@ immutable LogarithmicMapping LinearlyInterpolatedMapping CubicallyInterpolatedMapping
+
+// The "manual floor" used by every Index method: int(x) for x >= 0, int(x)-1 otherwise.
+//@ define FloorIdx(x real) int := x >= 0.0 ? int(x) : int(x) - 1
+
+// I5: consecutive bounds lb0 < lb1 are at most a factor (1+alpha)/(1-alpha) apart (a named symbol: the product is nonlinear)
+//@ define I5At(lb1 real, lb0 real, alpha real) bool := lb1 * (1.0 - alpha) <= lb0 * (1.0 + alpha)
+
+// ---- logarithmic mapping: the code's expressions over the fields
+//@ define LX(v real, off real, mult real) real := ln(v) * mult + off
+//@ define EB(i int, off real, mult real) real := exp((float64(i) - off) / mult)
+//@ fun LogX(m *LogarithmicMapping, v real) real := LX(v, m.indexOffset, m.multiplier)
+//@ fun LogLB(m *LogarithmicMapping, i int) real := EB(i, m.indexOffset, m.multiplier)
+//@ fun LogAlpha(m *LogarithmicMapping) real := 1.0 - 2.0 / (1.0 + m.gamma)
+
+// ---- interpolated mappings: approximateLog / approximateInverseLog are bit manipulations of the float64
+// representation; in real arithmetic they are the uninterpreted functions below (trusted contracts on those two
+// methods; their analytic properties are the assumptions LinA*/CubA* listed in the mappings file).
+//@ fun LinALog(x real) real
+//@ fun LinAInv(x real) real
+//@ fun CubALog(x real) real
+//@ fun CubAInv(x real) real
+//@ define LinLX(v real, off real, mult real) real := LinALog(v) * mult + off
+//@ define LinEB(i int, off real, mult real) real := LinAInv((float64(i) - off) / mult)
+//@ fun LinX(m *LinearlyInterpolatedMapping, v real) real := LinLX(v, m.indexOffset, m.multiplier)
+//@ fun LinLB(m *LinearlyInterpolatedMapping, i int) real := LinEB(i, m.indexOffset, m.multiplier)
+//@ fun LinAlpha(m *LinearlyInterpolatedMapping) real := 1.0 - 2.0 / (1.0 + exp(log2(m.gamma)))
+//@ define CubLX(v real, off real, mult real) real := CubALog(v) * mult + off
+//@ define CubEB(i int, off real, mult real) real := CubAInv((float64(i) - off) / mult)
+//@ fun CubX(m *CubicallyInterpolatedMapping, v real) real := CubLX(v, m.indexOffset, m.multiplier)
+//@ fun CubLB(m *CubicallyInterpolatedMapping, i int) real := CubEB(i, m.indexOffset, m.multiplier)
+//@ fun CubAlpha(m *CubicallyInterpolatedMapping) real := 1.0 - 2.0 / (1.0 + exp(fl(0.7) * log2(m.gamma)))
+
+// ---- abstract behaviour of any mapping object, by dynamic type
+//@ fun MIdx(m IndexMapping, v real) int := is(m, *LogarithmicMapping) ? FloorIdx(LogX(as(m, *LogarithmicMapping), v)) : (is(m, *LinearlyInterpolatedMapping) ? FloorIdx(LinX(as(m, *LinearlyInterpolatedMapping), v)) : FloorIdx(CubX(as(m, *CubicallyInterpolatedMapping), v)))
+//@ fun MLB(m IndexMapping, i int) real := is(m, *LogarithmicMapping) ? LogLB(as(m, *LogarithmicMapping), i) : (is(m, *LinearlyInterpolatedMapping) ? LinLB(as(m, *LinearlyInterpolatedMapping), i) : CubLB(as(m, *CubicallyInterpolatedMapping), i))
+//@ fun MAlpha(m IndexMapping) real := is(m, *LogarithmicMapping) ? LogAlpha(as(m, *LogarithmicMapping)) : (is(m, *LinearlyInterpolatedMapping) ? LinAlpha(as(m, *LinearlyInterpolatedMapping)) : CubAlpha(as(m, *CubicallyInterpolatedMapping)))
+//@ fun MVal(m IndexMapping, i int) real := MLB(m, i) * (1.0 + MAlpha(m))
+//@ fun MMin(m IndexMapping) real := is(m, *LogarithmicMapping) ? as(m, *LogarithmicMapping).minIndexableValue : (is(m, *LinearlyInterpolatedMapping) ? as(m, *LinearlyInterpolatedMapping).minIndexableValue : as(m, *CubicallyInterpolatedMapping).minIndexableValue)
+//@ fun MMax(m IndexMapping) real := is(m, *LogarithmicMapping) ? as(m, *LogarithmicMapping).maxIndexableValue : (is(m, *LinearlyInterpolatedMapping) ? as(m, *LinearlyInterpolatedMapping).maxIndexableValue : as(m, *CubicallyInterpolatedMapping).maxIndexableValue)
+//@ fun MGamma(m IndexMapping) real := is(m, *LogarithmicMapping) ? as(m, *LogarithmicMapping).gamma : (is(m, *LinearlyInterpolatedMapping) ? as(m, *LinearlyInterpolatedMapping).gamma : as(m, *CubicallyInterpolatedMapping).gamma)
+//@ fun MOffset(m IndexMapping) real := is(m, *LogarithmicMapping) ? as(m, *LogarithmicMapping).indexOffset : (is(m, *LinearlyInterpolatedMapping) ? as(m, *LinearlyInterpolatedMapping).indexOffset : as(m, *CubicallyInterpolatedMapping).indexOffset)
+//@ pred MKnown(m IndexMapping) := is(m, *LogarithmicMapping) || is(m, *LinearlyInterpolatedMapping) || is(m, *CubicallyInterpolatedMapping)
+
+// Equality as decided by Equals (C19): same kind, base and offset within a relative 1e-12.
+//@ pred WithinTol(x real, y real, tol real) := (x == 0.0 || y == 0.0) ? (abs(x) <= tol && abs(y) <= tol) : (abs(x - y) <= tol * max(abs(x), abs(y)))
+//@ pred MEq(a IndexMapping, b IndexMapping) := MKnown(a) && MKnown(b) && dyntype(a) == dyntype(b) && WithinTol(MGamma(a), MGamma(b), fl(1e-12)) && WithinTol(MOffset(a), MOffset(b), fl(1e-12))
 
 // The interface contract every mapping must satisfy (C03): bounds are positive and increasing (I1), every
 // indexable value lies between the bounds of its bin and its index fits 32 bits (I2), the representative value is
-// the alpha-midpoint of the bin (I4), consecutive bounds are at most a factor (1+alpha)/(1-alpha) apart (I5).
-//@ pred MapOK(m IndexMapping) := m != nil && 0.0 < MAlpha(m) && MAlpha(m) < 1.0 && 0.0 < MMin(m) && MMin(m) <= MMax(m) && (forall i int :: 0.0 < MLB(m, i) && MLB(m, i) < MLB(m, i + 1)) && (forall v real :: MMin(m) <= v && v <= MMax(m) ==> in32(MIdx(m, v)) && MLB(m, MIdx(m, v)) <= v && v <= MLB(m, MIdx(m, v) + 1)) && (forall i int :: MVal(m, i) == MLB(m, i) * (1.0 + MAlpha(m))) && (forall i int :: MLB(m, i + 1) * (1.0 - MAlpha(m)) <= MLB(m, i) * (1.0 + MAlpha(m)))
+// the alpha-midpoint of the bin (I4, by definition of MVal), consecutive bounds are at most a factor
+// (1+alpha)/(1-alpha) apart (I5), and the index is monotone (I3).
+//@ pred LogOK(m *LogarithmicMapping) := m.gamma > 1.0 && m.multiplier > 0.0 && 0.0 < LogAlpha(m) && LogAlpha(m) < 1.0 && 0.0 < m.minIndexableValue && 0.0 < m.maxIndexableValue && (forall i int :: 0.0 < LogLB(m, i) && LogLB(m, i) < LogLB(m, i + 1)) && (forall v real :: m.minIndexableValue <= v && v <= m.maxIndexableValue ==> in32(FloorIdx(LogX(m, v))) && LogLB(m, FloorIdx(LogX(m, v))) <= v && v <= LogLB(m, FloorIdx(LogX(m, v)) + 1)) && (forall v real, w real :: m.minIndexableValue <= v && v <= w && w <= m.maxIndexableValue ==> FloorIdx(LogX(m, v)) <= FloorIdx(LogX(m, w))) && (forall i int :: I5At(LogLB(m, i + 1), LogLB(m, i), LogAlpha(m)))
+//@ pred LinOK(m *LinearlyInterpolatedMapping) := m.gamma > 1.0 && m.multiplier > 0.0 && 0.0 < LinAlpha(m) && LinAlpha(m) < 1.0 && 0.0 < m.minIndexableValue && 0.0 < m.maxIndexableValue && (forall i int :: 0.0 < LinLB(m, i) && LinLB(m, i) < LinLB(m, i + 1)) && (forall v real :: m.minIndexableValue <= v && v <= m.maxIndexableValue ==> in32(FloorIdx(LinX(m, v))) && LinLB(m, FloorIdx(LinX(m, v))) <= v && v <= LinLB(m, FloorIdx(LinX(m, v)) + 1)) && (forall v real, w real :: m.minIndexableValue <= v && v <= w && w <= m.maxIndexableValue ==> FloorIdx(LinX(m, v)) <= FloorIdx(LinX(m, w))) && (forall i int :: I5At(LinLB(m, i + 1), LinLB(m, i), LinAlpha(m)))
+//@ pred CubOK(m *CubicallyInterpolatedMapping) := m.gamma > 1.0 && m.multiplier > 0.0 && 0.0 < CubAlpha(m) && CubAlpha(m) < 1.0 && 0.0 < m.minIndexableValue && 0.0 < m.maxIndexableValue && (forall i int :: 0.0 < CubLB(m, i) && CubLB(m, i) < CubLB(m, i + 1)) && (forall v real :: m.minIndexableValue <= v && v <= m.maxIndexableValue ==> in32(FloorIdx(CubX(m, v))) && CubLB(m, FloorIdx(CubX(m, v))) <= v && v <= CubLB(m, FloorIdx(CubX(m, v)) + 1)) && (forall v real, w real :: m.minIndexableValue <= v && v <= w && w <= m.maxIndexableValue ==> FloorIdx(CubX(m, v)) <= FloorIdx(CubX(m, w))) && (forall i int :: I5At(CubLB(m, i + 1), CubLB(m, i), CubAlpha(m)))
+//@ pred MapOK0(m IndexMapping) := m != nil && (is(m, *LogarithmicMapping) ? LogOK(as(m, *LogarithmicMapping)) : (is(m, *LinearlyInterpolatedMapping) ? LinOK(as(m, *LinearlyInterpolatedMapping)) : (is(m, *CubicallyInterpolatedMapping) && CubOK(as(m, *CubicallyInterpolatedMapping)))))
+// what other packages see of it: the by-type part stays abstract (opaque), the basic facts are explicit
+// MRange: the indexable range is not empty (false for absurd index offsets: stated separately, see DESIGN F9)
+//@ pred MRange(m IndexMapping) := MMin(m) <= MMax(m)
+//@ pred MapOK(m IndexMapping) := m != nil && 0.0 < MMin(m) && MMin(m) <= MMax(m) && MapOK0(m)
+
+//@ opaque MIdx MLB MVal MAlpha MMin MMax MEq MapOK0 MGamma MOffset MKnown
 
 //@ func IndexMapping.Index
 //@   serves C03 C01 C13
@@ -52,6 +103,6 @@ package mapping
 //@   ensures result == MMax(this)
 
 //@ func IndexMapping.Equals
-//@   serves C19 C13
-//@   requires this != nil
+//@   serves C19 C13 C02
+//@   requires MapOK(this)
 //@   ensures result == MEq(this, other)
